@@ -96,9 +96,17 @@ class CFG:
             t_out = self._block(st.body, {n}, ctx)
             self._tag_branch(n, t_entry_marker, st.test, True)
             f_entry_marker = len(self.nodes)
-            f_out = self._block(st.orelse, {n}, ctx) if st.orelse else {n}
             if st.orelse:
+                f_out = self._block(st.orelse, {n}, ctx)
                 self._tag_branch(n, f_entry_marker, st.test, False)
+            else:
+                # synthetic node for the implicit empty else-arm, so that the
+                # fall-through edge carries the negated test (guard clauses:
+                # ``if not c: continue`` makes what follows conditional on c)
+                e = self._new(ast.Pass(), "else")
+                self._edge(n, e)
+                self.cond_edges[(n, e)] = (st.test, False)
+                f_out = {e}
             self._stack.pop()
             return t_out | f_out
         if isinstance(st, (ast.For, ast.AsyncFor, ast.While)):
@@ -305,6 +313,20 @@ class CFG:
 
     def postdominates(self, a: int, b: int) -> bool:
         return a in self.postdominators().get(b, set())
+
+    def controlling(self, nid: int) -> list[tuple[ast.AST, bool]]:
+        """Branch tests (with sense) that hold whenever control reaches the
+        node: conditional edges ``u -> v`` whose target ``v`` dominates the
+        node.  Unlike the lexical ``path_condition`` this sees guard clauses
+        (``if not c: return`` / ``continue`` / ``raise``).  Outermost
+        first."""
+        dom = self.dominators()
+        out = []
+        for (u, v), (test, sense) in self.cond_edges.items():
+            if v in dom.get(nid, set()) and len(self.pred[v]) == 1:
+                out.append((len(dom.get(v, set())), test, sense))
+        out.sort(key=lambda t: t[0])
+        return [(t, s) for _, t, s in out]
 
     def path_condition(self, nid: int) -> list[tuple[ast.AST, bool]]:
         """Branch tests (with sense) of the ``if`` statements lexically
